@@ -124,7 +124,7 @@ def arity(ctx, rule):
                    key=f"arity {name}: {unparse(c, 60)}")
     ctx.ob(rule, 'PlateSlicer', 0, 'method calls with a resolvable callee match a signature', True,
            fact=f"{checked} calls checked", nontrivial=False, key='arity summary')
-    floor(ctx, 'resolvable method calls', checked, 60)
+    floor(ctx, 'resolvable method calls', checked, 30)
 
 
 def narrowed_classes(e, state, model, depth=0):
@@ -307,7 +307,7 @@ def run(ctx):
                 ctx.ob('C07.R1', fi, e.line, f"{e.desc} [{e.fi.qualname}]", False, fact=f"{e.cls}: {e.why}",
                        why='wells are written in an object that is not a fresh copy: the rest of the caller\'s plate changes',
                        key=f"mutation of non-fresh object: {e.target_text}")
-    floor(ctx, 'mutation events in the plate operations', nev, 15)
+    floor(ctx, 'mutation events in the plate operations', nev, 6)
     # R2 forwarding
     forwarding(ctx, 'C07.R2')
     for name in ('get_volumes', 'get_substances', 'get_moles'):
